@@ -293,6 +293,29 @@ inductive DataLayout (ν : Type) where
   | other
   deriving DecidableEq, Repr
 
+/-- `matrices::views::DataLayout` (matrices/views.rs:165) -/
+inductive MatrixLayout where
+  | rowMajor
+  | columnMajor
+  | other
+  deriving DecidableEq, Repr
+
+/-- `MatrixRefTensor::data_layout` (interop/mod.rs:262): a 2-dimensional tensor source whose
+    linear layout is its shape order is row major, the reverse order column major. -/
+def matrixRefTensorLayout (sourceShape : Shape ν) (sourceLayout : DataLayout ν) :
+    MatrixLayout :=
+  let rowsDimension := (sourceShape.getD 0 (default, 0)).1
+  let columnsDimension := (sourceShape.getD 1 (default, 0)).1
+  if sourceLayout = .linear [rowsDimension, columnsDimension] then .rowMajor
+  else if sourceLayout = .linear [columnsDimension, rowsDimension] then .columnMajor
+  else .other
+
+/-- `TensorRefMatrix::data_layout` (interop/mod.rs:157) -/
+def tensorRefMatrixLayout (rowName columnName : ν) : MatrixLayout → DataLayout ν
+  | .rowMajor => .linear [rowName, columnName]
+  | .columnMajor => .linear [columnName, rowName]
+  | .other => .other
+
 /-! ### The syntax tree of a view -/
 
 /-- A composition of view adaptors over tensors / matrices. -/
@@ -301,6 +324,9 @@ inductive View (ν α : Type) where
   | tensor (id : Nat) (t : Tensor ν α)
   /-- `TensorRefMatrix<T, Matrix<T>, N>`: a matrix seen as a 2-dimensional tensor -/
   | matrix (id : Nat) (m : Matrix α) (rowName columnName : ν)
+  /-- `TensorRefMatrix<T, MatrixRefTensor<T, S>, N>`: a 2-dimensional tensor view seen as a matrix
+      (`MatrixRefTensor`, the only matrix source that can be column major) seen as a tensor again -/
+  | matrixOf (source : View ν α) (rowName columnName : ν)
   /-- `TensorRange { source, range }` -/
   | range (source : View ν α) (range : List IndexRange)
   /-- `TensorMask { source, mask }` -/
@@ -331,6 +357,9 @@ mutual
 def shape : View ν α → Shape ν
   | .tensor _ t => t.shape
   | .matrix _ m r c => [(r, m.rows), (c, m.columns)]
+  | .matrixOf s r c =>
+    -- `view_rows = source.view_shape()[0].1`, `view_columns = source.view_shape()[1].1`
+    [(r, (s.shape.getD 0 (default, 0)).2), (c, (s.shape.getD 1 (default, 0)).2)]
   | .range s rs => rangeShape s.shape rs
   | .mask s ms => maskShape s.shape ms
   | .index s p => indexShape s.shape p
@@ -373,6 +402,9 @@ mutual
 def get : View ν α → List Nat → Outcome (Option Cell)
   | .tensor id t, indexes => tensorGet id t indexes
   | .matrix id m _ _, indexes => matrixGet id m indexes
+  | .matrixOf s _ _, indexes =>
+    -- `self.source.try_get_reference(indexes[0], indexes[1])` = `source.get_reference([row, column])`
+    s.get [indexes.getD 0 0, indexes.getD 1 0]
   | .range s rs, indexes => obind (mapIndexesByRange indexes rs) fun mapped => s.get mapped
   | .mask s ms, indexes =>
     match mapIndexesByMaskChecked indexes ms with
@@ -424,6 +456,7 @@ mutual
 def getUnchecked : View ν α → List Nat → Outcome Cell
   | .tensor id t, indexes => tensorGetUnchecked id t indexes
   | .matrix id m _ _, indexes => matrixGetUnchecked id m indexes
+  | .matrixOf s _ _, indexes => s.getUnchecked [indexes.getD 0 0, indexes.getD 1 0]
   | .range s rs, indexes =>
     match mapIndexesByRange indexes rs with
     | .ok (some mapped) => s.getUnchecked mapped
@@ -496,6 +529,10 @@ def mapLinearDataLayoutToTransposed (m : DimensionMappings) (sourceShape : Shape
 def layout : View ν α → Outcome (DataLayout ν)
   | .tensor _ t => .ok (.linear (namesOf t.shape))
   | .matrix _ _ r c => .ok (.linear [r, c])        -- `Matrix` is `RowMajor`
+  | .matrixOf s r c =>
+    match s.layout with
+    | .ok sourceLayout => .ok (tensorRefMatrixLayout r c (matrixRefTensorLayout s.shape sourceLayout))
+    | .panic k => .panic k
   | .range _ _ => .ok .nonLinear
   | .mask _ _ => .ok .nonLinear
   | .index _ _ => .ok .nonLinear
@@ -520,6 +557,7 @@ mutual
 def leaves : View ν α → List (Nat × List α)
   | .tensor id t => [(id, t.data)]
   | .matrix id m _ _ => [(id, m.data)]
+  | .matrixOf s _ _ => s.leaves
   | .range s _ => s.leaves
   | .mask s _ => s.leaves
   | .index s _ => s.leaves
@@ -555,6 +593,7 @@ def setCell (c : Cell) (x : α) : View ν α → View ν α
   | .tensor id t => if id = c.1 then .tensor id { t with data := t.data.set c.2 x } else .tensor id t
   | .matrix id m r cn =>
     if id = c.1 then .matrix id { m with data := m.data.set c.2 x } r cn else .matrix id m r cn
+  | .matrixOf s r cn => .matrixOf (setCell c x s) r cn
   | .range s p => .range (setCell c x s) p
   | .mask s p => .mask (setCell c x s) p
   | .index s p => .index (setCell c x s) p
@@ -591,6 +630,14 @@ def mkMatrix (id : Nat) (rows columns : Nat) (data : List α) (rowName columnNam
       some (.matrix id m rowName columnName)
     else none
   | none => none
+
+/-- `TensorRefMatrix::from` / `with_names` over `MatrixRefTensor::from(source)` for a
+    2-dimensional `source` -/
+def mkMatrixOf (s : View ν α) (rowName columnName : ν) : Option (View ν α) :=
+  if s.shape.length ≠ 2 then none
+  else if isValidShape [(rowName, (s.shape.getD 0 (default, 0)).2),
+      (columnName, (s.shape.getD 1 (default, 0)).2)] then some (.matrixOf s rowName columnName)
+  else none
 
 /-- one step of the `for (name, range) in ranges` loop of `from_named_to_all` -/
 def namedStep (shape : Shape ν) (all : List (Option IndexRange)) (p : ν × IndexRange) :
